@@ -164,6 +164,27 @@ func pmWant(ph []string, in string) *want {
 		}
 	}
 	return &want{alts: []alt{a}, text: text, class: func(o *Obs, reason string) string {
+		nonASCII := false
+		for _, p := range ph {
+			if hasHigh(p) {
+				nonASCII = true
+			}
+		}
+		if nonASCII {
+			// is the whole observation what the phrases would give after Unicode
+			// lower-casing (strings.ToLower) instead of ASCII folding?
+			lp := make([]string, len(ph))
+			same := true
+			for i, p := range ph {
+				lp[i] = strings.ToLower(p)
+				same = same && lp[i] == foldASCII(p)
+			}
+			if !same {
+				if ok, _ := acceptAlts(pmWant(lp, in).alts, o.Capture, o); ok {
+					return "pm:non-ascii-phrase-is-unicode-lowercased"
+				}
+			}
+		}
 		if reason != "verdict" {
 			// strip the counts so that one defect keeps one signature
 			if i := strings.Index(reason, "fewer-captures-than-hits"); i >= 0 {
@@ -174,21 +195,7 @@ func pmWant(ph []string, in string) *want {
 			}
 			return "pm:" + reason
 		}
-		nonASCII := false
-		for _, p := range ph {
-			if hasHigh(p) {
-				nonASCII = true
-			}
-		}
 		if nonASCII {
-			// does Unicode lower-casing of the phrases explain the answer?
-			lp := make([]string, len(ph))
-			for i, p := range ph {
-				lp[i] = strings.ToLower(p)
-			}
-			if (len(occurrences(lp, in)) > 0) == o.Res {
-				return "pm:non-ascii-phrase-is-unicode-lowercased"
-			}
 			return "pm:" + fnfp(v) + ":non-ascii-phrase"
 		}
 		if !v {
